@@ -9,7 +9,9 @@ complete and returns exactly the table that was written.
 nothing with carquet and REJECTS a byte string unless every structural claim the file makes about
 itself is true (envelope, footer with required fields, schema tree, chunks tiling `[4, footer)`
 exactly, page headers chaining through each chunk, legal and listed encodings, CRC, decompressed
-length, levels, values, true page statistics, counts pages → chunk → row group → file).
+length, levels, values, true page statistics, counts pages → chunk → row group → file, and — since fix
+F23 — the byte sizes the metadata state: `total_uncompressed_size` = Σ (page header + uncompressed page),
+`RowGroup.total_byte_size` = Σ of the chunks' `total_uncompressed_size`).
 `fileOf (Impl.FileReal.deps [])` is the byte-exact model of carquet's writer over the models of
 its real components (tie: byte equality of whole files, op `wr`).
 
@@ -245,7 +247,7 @@ footer said `num_rows = 2`; the independent reader rejects the file. -/
 private def f62Cols : List Col := [⟨"c0", .int32, .repeated, 0⟩]
 private def f62Ops : List Op := [.batch ⟨0, 2, some [1, 1], [[1, 0, 0, 0], [2, 0, 0, 0]], some [0, 1]⟩]
 /-- the FileMetaData the pinned code assembled: one row group, `num_rows` 2 -/
-private def f62Md : FooterData := ⟨f62Cols, "Carquet", 2, [⟨2, 59, 4, 59, 0, [⟨4, .int32, 0, 2, 59, 20, "c0"⟩]⟩]⟩
+private def f62Md : FooterData := ⟨f62Cols, "Carquet", 2, [⟨2, 59, 4, 59, 0, [⟨4, .int32, 0, 2, 59, 59, "c0"⟩]⟩]⟩
 
 private theorem f62_split :
     File.splitFile (fileOfPreFixF64 (deps []) f62Cols 0 1048576 "Carquet" f62Ops).1 = .ok (63, FileReal.footer f62Md) := by
